@@ -79,6 +79,32 @@ type nhAgent struct {
 	mu       sync.Mutex
 	got      []agent.Message
 	done     chan struct{}
+	stalled  bool
+	wake     chan struct{}
+	parked   chan struct{}
+	kick     chan struct{}
+}
+
+// stall makes the agent stop taking messages until resume is called; it returns when the agent is parked.
+func (a *nhAgent) stall() {
+	a.mu.Lock()
+	a.stalled, a.wake, a.parked = true, make(chan struct{}), make(chan struct{})
+	p := a.parked
+	a.mu.Unlock()
+	select {
+	case a.kick <- struct{}{}:
+	default:
+	}
+	<-p
+}
+
+func (a *nhAgent) resume() {
+	a.mu.Lock()
+	if a.stalled {
+		a.stalled = false
+		close(a.wake)
+	}
+	a.mu.Unlock()
 }
 
 func newNhAgent(eids ...string) *nhAgent {
@@ -86,14 +112,35 @@ func newNhAgent(eids ...string) *nhAgent {
 	for _, e := range eids {
 		a.eids = append(a.eids, gen.MustEID(e))
 	}
+	a.kick = make(chan struct{}, 1)
 	go func() {
 		defer close(a.done)
-		for m := range a.receiver {
+		for {
 			a.mu.Lock()
-			a.got = append(a.got, m)
+			stalled, wake, parked := a.stalled, a.wake, a.parked
 			a.mu.Unlock()
-			if _, ok := m.(agent.ShutdownMessage); ok {
-				return
+			if stalled {
+				select {
+				case <-parked:
+				default:
+					close(parked)
+				}
+				<-wake // a stalled agent does not take messages
+				continue
+			}
+			select {
+			case <-a.kick:
+				continue
+			case m, ok := <-a.receiver:
+				if !ok {
+					return
+				}
+				a.mu.Lock()
+				a.got = append(a.got, m)
+				a.mu.Unlock()
+				if _, ok := m.(agent.ShutdownMessage); ok {
+					return
+				}
 			}
 		}
 	}()
@@ -368,4 +415,16 @@ func joinSorted(xs []string) string { sort.Strings(xs); return strings.Join(xs, 
 
 func verifSprayCopies(a routing.Algorithm, bid bpv7.BundleID) (uint64, bool) {
 	return routing.VerifSprayCopies(a, bid)
+}
+
+// waitFor waits (bounded by a generous watchdog) for a condition that an asynchronous hand-over will establish.
+func waitFor(cond func() bool) bool {
+	deadline := time.Now().Add(20 * time.Second)
+	for !cond() {
+		if time.Now().After(deadline) {
+			return false
+		}
+		time.Sleep(50 * time.Microsecond)
+	}
+	return true
 }
